@@ -364,6 +364,8 @@ def decodeCompressedLoop (T : Tables) (edition : Nat) (s4max : Nat) (g : Range) 
 def decodeData (T : Tables) (fuel : Nat) (t : Template) (enforce : Enforce) (nsub : Nat) (compressed : Bool)
     (s4max : Nat) (data : List Nat) (from0 to0 : Int) : Except XErr (Option DecodeOut) :=
   if from0 > nsub then .ok none else
+  -- a template made from an empty descriptor list is never finalised: `bufr_create_dataset` refuses it
+  if t.descs.isEmpty then .ok none else
   let from_ : Int := if from0 < 0 then 1 else from0
   let to1 : Int := if to0 < from_ then from_ else to0
   let to : Int := if to1 > nsub then nsub else to1
